@@ -18,6 +18,7 @@ import (
 
 	"github.com/pegnet/pegnetd/config"
 
+	"verif/harness/ff"
 	"verif/harness/gen"
 	"verif/harness/proj"
 	"verif/harness/run"
@@ -214,6 +215,24 @@ func cmdCrash(args []string) {
 		ref.dbAt[config.PegnetActivation] = filepath.Join(*work, "ref-fresh", "pegnet")
 	}
 	r.Srv.SetTip(s.Tip)
+	// per-client request counters and one-shot request faults (mode reqfault)
+	var fmu sync.Mutex
+	reqCount := map[string]int{}
+	failReq := map[string]int{}
+	r.Srv.Fault = func(q ff.Request) string {
+		if q.Client == "" {
+			return ""
+		}
+		fmu.Lock()
+		defer fmu.Unlock()
+		i := reqCount[q.Client]
+		reqCount[q.Client] = i + 1
+		if k, ok := failReq[q.Client]; ok && k == i {
+			delete(failReq, q.Client)
+			return "injected upstream failure (verif)"
+		}
+		return ""
+	}
 	f, err := os.Create(*out)
 	if err != nil {
 		die(70, "%v", err)
@@ -260,6 +279,12 @@ func cmdCrash(args []string) {
 			die(70, "event count run failed for height %d: rc=%d %s %+v", h, o.rc, o.stderr, o.rep)
 		}
 		K := o.rep.K
+		if *mode == "reqfault" {
+			fmu.Lock()
+			K = reqCount["count"]
+			reqCount["count"] = 0
+			fmu.Unlock()
+		}
 		emit(map[string]interface{}{"ev": "BlockEvents", "h": h, "K": K, "writesOut": o.rep.WritesOut, "begins": o.rep.Begins})
 		os.RemoveAll(filepath.Dir(tmp))
 		for k := 0; k < K; k++ {
@@ -330,6 +355,24 @@ func cmdCrash(args []string) {
 					}
 				}
 				res["matches"] = m
+			case "reqfault":
+				cl := fmt.Sprintf("q%d", i)
+				fmu.Lock()
+				failReq[cl] = e.k
+				fmu.Unlock()
+				o := runChild(self, append(common(db, e.h, cl), "-timeout", "20s")...)
+				res["ev"] = "FaultExp"
+				res["kind"] = "req"
+				res["childrc"] = o.rc
+				fmu.Lock()
+				_, pending := failReq[cl]
+				delete(failReq, cl)
+				fmu.Unlock()
+				res["injected"] = !pending
+				res["site"] = "factomd-request"
+				if o.rc != 0 {
+					res["childerr"] = o.stderr
+				}
 			case "stmtfault":
 				o := runChild(self, append(common(db, e.h, fmt.Sprintf("s%d", i)), "-fail-at", fmt.Sprint(e.k), "-timeout", "20s")...)
 				res["ev"] = "FaultExp"
